@@ -357,7 +357,7 @@ Theorem C06_error_calc_every_branch : forall (F : Type) (Op : fops F),
   ring_theory (f0 Op) (f1 Op) (fadd Op) (fmul Op) (fsub Op) (fopp Op) (@eq F) ->
   forall (X : tensor F) (R : nat) (w : option (list F)) (fs : list (tensor F)) (card : option nat) (mask M : option (tensor F)),
   0 < length (shape X) -> length fs = length (shape X) ->
-  (forall Mt, M = Some Mt -> forall i r,
+  (forall Mt, M = Some Mt -> forall i r, i < nth (length (shape X) - 1) (shape X) 0 -> r < R ->
      get (f0 Op) Mt [i; r] = mttkrp Op (shape X) (tfun Op X) (wfun Op w) (colsT Op fs) (length (shape X) - 1) i r) ->
   error_calc_model Op X R w fs card mask M
   = err_explicit Op X (cp_tensor_entry Op R w fs) (sparse_of Op X (cp_tensor_entry Op R w fs) card mask) mask.
@@ -524,6 +524,122 @@ Proof.
   intros _ _. simpl. repeat split; intros a b Ha Hb;
     repeat (destruct a as [|a]; [|try lia]); repeat (destruct b as [|b]; [|try lia]); try lia; vm_compute; reflexivity.
 Qed.
+
+(* ---- round 6 ----
+   error_calc composed with the sweep ON DATA: one iteration of parafac (for mode in modes_list: MTTKRP of the current factors, factors[mode] =
+   solve(...); then error_calc with the remembered MTTKRP).  For EVERY solve oracle the remembered matrix is the MTTKRP of the last updated
+   mode for the UPDATED factors (computed before that factor is overwritten, and not reading it), so the hypothesis of
+   C06_error_calc_every_branch is established by the sweep itself: the value is the explicit squared residual of the updated factors.
+   Every order >= 1, shape, rank, modes list ending with the last mode (or empty: all modes fixed) *)
+Theorem C06_parafac_iteration_on_data_reports_true_error : forall (F : Type) (Op : fops F),
+  ring_theory (f0 Op) (f1 Op) (fadd Op) (fmul Op) (fsub Op) (fopp Op) (@eq F) ->
+  forall (solve : nat -> tensor F -> list (tensor F) -> tensor F) (X : tensor F) (R : nat) (w : option (list F)) (ms : list nat) (fs : list (tensor F)),
+  0 < length (shape X) -> length fs = length (shape X) -> (ms = [] \/ last ms 0 = length (shape X) - 1) ->
+  parafac_iteration_error Op solve X R w ms fs
+  = err_explicit Op X (cp_tensor_entry Op R w (fst (data_sweep Op solve X R w ms fs None))) None None.
+Proof. exact @parafac_iteration_reports_true_error. Qed.
+Print Assumptions C06_parafac_iteration_on_data_reports_true_error.
+(* ... iterated: every entry of the list of a run on data is the explicit squared residual (and squared norm) of the factors at the end of its
+   iteration, and the returned factors are those of the last iteration *)
+Theorem C06_parafac_loop_on_data_reports_true_errors : forall (F : Type) (Op : fops F),
+  ring_theory (f0 Op) (f1 Op) (fadd Op) (fmul Op) (fsub Op) (fopp Op) (@eq F) ->
+  forall (solve : nat -> nat -> tensor F -> list (tensor F) -> tensor F) (X : tensor F) (R : nat) (w : option (list F)) (ms : list nat),
+  0 < length (shape X) -> (ms = [] \/ last ms 0 = length (shape X) - 1) ->
+  forall n it fs errs, length fs = length (shape X) ->
+  snd (parafac_data_loop Op solve X R w ms n it fs errs)
+  = errs ++ map (fun fs_j => err_explicit Op X (cp_tensor_entry Op R w fs_j) None None) (parafac_data_states Op solve X R w ms n it fs) /\
+  fst (parafac_data_loop Op solve X R w ms n it fs errs) = last (parafac_data_states Op solve X R w ms n it fs) fs.
+Proof. exact @parafac_data_loop_reports_true_errors. Qed.
+Print Assumptions C06_parafac_loop_on_data_reports_true_errors.
+(* the CP loop under a 0/1 mask (optionally with sparsity): error_calc reads the tensor it is given only through its observed entries, and the
+   imputed tensor it hands on has the observed entries of the original data; so although the loop carries an imputed tensor from iteration to
+   iteration, EVERY recorded value is what error_calc computes from the ORIGINAL data for the factors of that iteration (explicit residual of
+   the data imputed with that iterate's reconstruction, minus the sparse component - by C06_masked_residual_is_observed_residual the residual
+   on the observed entries); for every update rule *)
+Theorem C06_error_calc_mask_reads_observed_only : forall (F : Type) (Op : fops F)
+  (Xc X0 m : tensor F) (R : nat) (w : option (list F)) (fs : list (tensor F)) (card : option nat) (M : option (tensor F)),
+  agree_observed Op Xc X0 m ->
+  error_calc_model Op Xc R w fs card (Some m) M = error_calc_model Op X0 R w fs card (Some m) M.
+Proof. exact @error_calc_mask_reads_observed_only. Qed.
+Print Assumptions C06_error_calc_mask_reads_observed_only.
+Theorem C06_masked_loop_reports_errors_of_original_data : forall (F : Type) (Op : fops F),
+  ring_theory (f0 Op) (f1 Op) (fadd Op) (fmul Op) (fsub Op) (fopp Op) (@eq F) ->
+  forall (upd : nat -> list (tensor F) -> tensor F -> list (tensor F)) (X0 m : tensor F) (R : nat) (w : option (list F)) (card : option nat),
+  (forall idx, inb (shape X0) idx -> fmul Op (tfun Op m idx) (tfun Op m idx) = tfun Op m idx) ->
+  forall n it fs Xc errs, agree_observed Op Xc X0 m ->
+  snd (masked_loop Op upd m R w card n it fs Xc errs)
+  = errs ++ map (fun fs_j => error_calc_model Op X0 R w fs_j card (Some m) None) (masked_states Op upd m R w n it fs Xc) /\
+  fst (masked_loop Op upd m R w card n it fs Xc errs) = last (masked_states Op upd m R w n it fs Xc) fs.
+Proof. exact @masked_loop_reports_errors_of_original_data. Qed.
+Print Assumptions C06_masked_loop_reports_errors_of_original_data.
+(* CMTF (squared form) and randomised CP as skeletons: one explicit value per iteration, recorded before the convergence test / the callback
+   may stop the run; for every update rule and stop pattern every recorded value belongs to the iterate of its iteration, the last to the returned one *)
+Theorem C06_cmtf_loop_reports_true_errors : forall (F : Type) (Op : fops F) (X Y : tensor F) (R : nat)
+  (upd : nat -> list (tensor F) * tensor F -> list (tensor F) * tensor F) (stop : nat -> bool),
+  let Or := mkS upd stop (fun _ => false) (fun st => st) in
+  forall n init j, j < length (snd (s_loop (cmtf_err2 Op X Y R) Or true false n 0 init [])) ->
+  nth_error (snd (s_loop (cmtf_err2 Op X Y R) Or true false n 0 init [])) j
+  = Some (cmtf_err2 Op X Y R (fst (s_loop (cmtf_err2 Op X Y R) Or true false (S j) 0 init []))).
+Proof. exact @cmtf_loop_reports_true_errors. Qed.
+Print Assumptions C06_cmtf_loop_reports_true_errors.
+Theorem C06_randomised_loop_reports_true_errors : forall (F : Type) (Op : fops F) (X : tensor F) (R : nat)
+  (upd : nat -> option (list F) * list (tensor F) -> option (list F) * list (tensor F)) (stop cb_stop : nat -> bool),
+  let Or := mkS upd stop cb_stop (fun st => st) in
+  forall n init j, j < length (snd (s_loop (cp_explicit_err2 Op X R) Or true false n 0 init [])) ->
+  nth_error (snd (s_loop (cp_explicit_err2 Op X R) Or true false n 0 init [])) j
+  = Some (cp_explicit_err2 Op X R (fst (s_loop (cp_explicit_err2 Op X R) Or true false (S j) 0 init []))) /\
+  s_last_ok _ _ (cp_explicit_err2 Op X R) (s_loop (cp_explicit_err2 Op X R) Or true false (S n) 0 init []).
+Proof. exact @randomised_loop_reports_true_errors. Qed.
+Print Assumptions C06_randomised_loop_reports_true_errors.
+(* the finiteness clause as far as it can be stated over R: in exact arithmetic the quantity under each shortcut's square root is a squared
+   residual, hence non-negative - the square root is defined even without the abs, the reported value is a non-negative real and, for
+   ||X|| > 0, a quotient with non-zero denominator.  A negative argument / NaN can therefore only come from ROUNDING (a perturbation delta of
+   the exact argument: the abs keeps the argument non-negative, and delta = 0 gives the exact relative error) or from ||X|| = 0. *)
+Theorem C06_error_calc_argument_nonnegative : forall (s : list nat) (X : list nat -> R) (Rk : nat) (w u v : nat -> R) (cols : nat -> list (nat -> R)) (n : nat),
+  n < length s -> (forall r, r < Rk -> length (cols r) = length s) -> (forall r, r < Rk -> (u r * v r)%R = w r) ->
+  (0 < normsq Rops s X)%R -> finite_report (err2_fast Rops s X Rk w u v cols n) (normsq Rops s X).
+Proof. exact error_calc_argument_nonneg. Qed.
+Print Assumptions C06_error_calc_argument_nonnegative.
+Theorem C06_hooi_argument_nonnegative : forall (s rs : list nat) (X G : list nat -> R) (us : list (nat -> nat -> R)),
+  orthonormal Rops s rs us -> (forall j, inb rs j -> G j = project Rops s X us j) ->
+  (0 < normsq Rops s X)%R -> finite_report (hooi_err2 Rops s rs X G) (normsq Rops s X).
+Proof. exact hooi_argument_nonneg. Qed.
+Print Assumptions C06_hooi_argument_nonnegative.
+Theorem C06_parafac2_argument_nonnegative : forall (I K Rk : nat) (J : nat -> nat) (X P : nat -> nat -> nat -> R) (A Bm C : nat -> nat -> R),
+  (0 < p2_normX Rops I K J X)%R ->
+  finite_report (p2_err2_fast Rops I K Rk J X P A Bm C (p2_tmp_proj Rops Rk J X P A Bm)) (p2_normX Rops I K J X).
+Proof. exact parafac2_argument_nonneg. Qed.
+Print Assumptions C06_parafac2_argument_nonnegative.
+Theorem C06_tr_and_explicit_arguments_nonnegative : forall (s : list nat) (X L : list nat -> R) (r0 : nat) (cores : list (@core R)) (d : nat),
+  (0 < normsq Rops s X)%R ->
+  finite_report (ls_residual2 Rops s X r0 cores d) (normsq Rops s X) /\ finite_report (dist2 Rops s X L) (normsq Rops s X).
+Proof. exact tr_and_explicit_arguments_nonneg. Qed.
+Print Assumptions C06_tr_and_explicit_arguments_nonnegative.
+Theorem C06_rounding_is_the_only_source_of_nan : forall q nx delta : R, (0 <= q)%R -> (0 < nx)%R ->
+  sqrt_arg_ok (Rabs (q + delta)) /\ (delta = 0%R -> reported (q + delta) nx = rel_error q nx) /\
+  ((q + delta < 0)%R -> ~ sqrt_arg_ok (q + delta)).
+Proof. exact rounding_is_the_only_source. Qed.
+Print Assumptions C06_rounding_is_the_only_source_of_nan.
+(* tensor_ring_als, the axis bookkeeping of the design matrix transcribed (Model/Errors.v: subchain_axes, tr_idx; regenerated from the source and
+   re-checked on every run by harness/props/C06_ast.py): transposing the sub-chain tensor (axes: bond r_{dim+1}, modes dim+1 .. dim-1 cyclically, bond
+   r_dim) by tr_idx puts the modes in INCREASING order - the row order of matricize(tensor, [n != dim], [dim]) - followed by r_dim and r_{dim+1}, the
+   row-major pair that also indexes the rows of `sol` before it is reshaped into the core: (design_mat @ sol)[idx', i] =
+   sum_{a,b} subchain[b, idx', a] core[a, i, b], the ls_prediction of C06_tr_als_prediction_is_ring_entry.  Every order N, every mode dim < N *)
+Theorem C06_tr_idx_sorts_modes : forall N dim : nat, dim < N ->
+  permute_axes (subchain_axes N dim) (tr_idx N dim) = map AMode (remove_nth dim (seq 0 N)) ++ [ABond dim; ABond (dim + 1)] /\
+  length (tr_idx N dim) = N + 1.
+Proof. exact tr_idx_sorts_and_length. Qed.
+Print Assumptions C06_tr_idx_sorts_modes.
+Example C06_tr_idx_nonvacuous : tr_idx 4 1 = [3; 1; 2; 4; 0] /\ permute_axes (subchain_axes 4 1) (tr_idx 4 1) = [AMode 0; AMode 2; AMode 3; ABond 1; ABond 2].
+Proof. vm_compute. split; reflexivity. Qed.
+(* non-vacuity: finite_report holds on the 1-entry instance of C06_reported_nonvacuous; a sweep on data over Z with a constant solve oracle *)
+Example C06_round6_nonvacuous :
+  finite_report 4 9 /\
+  (let X := mk [2;3;2] [1;2;3;4;5;6;7;8;9;10;11;12]%Z in
+   let fs := [mk [2;2] [1;0;1;1]%Z; mk [3;2] [1;2;0;1;1;1]%Z; mk [2;2] [1;1;2;0]%Z] in
+   let solve := fun (m : nat) (_ : tensor Z) (cur : list (tensor Z)) => nth m fs (mk [] []) in
+   fst (parafac_iteration_error Zops solve X 2 (Some [2;3]%Z) [0;1;2] [mk [2;2] [0;0;0;0]%Z; mk [3;2] [1;1;1;1;1;1]%Z; mk [2;2] [5;5;5;5]%Z]) = 296%Z).
+Proof. split; [apply finite_report_of_nonneg; lra | vm_compute; reflexivity]. Qed.
 
 (* ---- non-vacuity: the hypotheses are satisfiable and the model computes *)
 Example C06_ring_Z : ring_theory (f0 Zops) (f1 Zops) (fadd Zops) (fmul Zops) (fsub Zops) (fopp Zops) (@eq Z).
